@@ -5,7 +5,7 @@ use explore::mix;
 pub fn shim_path() -> String { std::env::var("VERIF_SHIM").unwrap_or_else(|_| "/verif/target/entropy_shim.so".into()) }
 #[derive(Clone, Debug)]
 pub struct Req { pub len: usize, pub entry: String, pub ok: bool, pub bytes: Vec<u8> }
-pub enum Mode { List(Vec<Option<Vec<u8>>>), Stream { seed: u64, fail_at: Option<u64> } }
+pub enum Mode { List(Vec<Option<Vec<u8>>>), Stream { seed: u64, fail_at: Option<u64> }, StreamFailOnce { seed: u64, fail_at: u64 } }
 /// bytes the shim returns for request k of a stream
 pub fn stream_bytes(seed: u64, k: u64, len: usize) -> Vec<u8> { let base = mix(seed, k); (0..len).map(|i| (mix(base, i as u64 / 8) >> (8 * (i % 8))) as u8).collect() }
 
@@ -15,6 +15,7 @@ pub fn run_shimmed(cmd: &Cmd, build: Build, mode: &Mode, sweep: &str, index: u64
     let mut script = None;
     match mode {
         Mode::List(a) => { let text: String = a.iter().map(|x| match x { Some(b) => format!("ok {}\n", explore::hex(b)), None => "fail\n".to_string() }).collect(); let f = scratch_file(sweep, index, "escript", text.as_bytes()); c = c.env("HDW_ENTROPY_MODE", &format!("list:{f}")); script = Some(f); }
+        Mode::StreamFailOnce { seed, fail_at } => { c = c.env("HDW_ENTROPY_MODE", &format!("stream:{seed}:{fail_at}:once")); }
         Mode::Stream { seed, fail_at } => { c = c.env("HDW_ENTROPY_MODE", &match fail_at { Some(k) => format!("stream:{seed}:{k}"), None => format!("stream:{seed}") }); }
     }
     let r = c.run(build);
